@@ -26,8 +26,6 @@ from __future__ import annotations
 
 import typing as t
 
-from ..http import parse_list_header
-
 if t.TYPE_CHECKING:
     from _typeshed.wsgi import StartResponse
     from _typeshed.wsgi import WSGIApplication
@@ -118,7 +116,10 @@ class ProxyFix:
         """
         if not (trusted and value):
             return None
-        values = parse_list_header(value)
+        # The X-Forwarded headers are plain comma separated lists, each proxy
+        # appends its value. Quoted strings are not part of their syntax, a
+        # quote sent by the client must not merge the values the proxies added.
+        values = [item.strip() for item in value.split(",")]
         if len(values) >= trusted:
             return values[-trusted]
         return None
